@@ -202,10 +202,10 @@ def calculate_first_sets(grammar):
 
             # Update first sets:
             for beta in rule.symbols:
+                if first[beta] - first[rule.name]:
+                    first[rule.name] |= first[beta]
+                    some_change = True
                 if not nullable[beta]:
-                    if first[beta] - first[rule.name]:
-                        first[rule.name] |= first[beta]
-                        some_change = True
                     break
         if not some_change:
             break
